@@ -89,10 +89,10 @@ def abs_value(x, table=TABLE, depth=0):
         raise ValueError("value too deep / cyclic")
     t = type(x)
     if t is str:
-        return T("str", x)
+        return T("str", armour(x))
     if isinstance(t, type) and issubclass(t, str) and t.__hash__ is str.__hash__:
         # an instance of a str subclass: its text plus its exact class (a = <<atom(class)>>)
-        return T("str", str.__str__(x), [T("atom", table.name(t))])
+        return T("str", armour(str.__str__(x)), [T("atom", table.name(t))])
     if isinstance(t, type) and issubclass(t, type):  # x is a class object
         return T("classobj", table.name(x))
     if t in _FUNC_TYPES:
@@ -129,13 +129,26 @@ def _is_typeddict(t):
     return (_MypyTDMeta and isinstance(t, _MypyTDMeta)) or (_TypingTDMeta and isinstance(t, _TypingTDMeta))
 
 
+def armour(s):
+    """Text as the specs see it: ASCII only (TLC's Json module does not survive other characters). Injective: every other
+    character c becomes {u+XXXX}; the specs treat strings as opaque, so equality is all that matters."""
+    if s.isascii():
+        return s
+    return "".join(c if c.isascii() else "{u+%04x}" % ord(c) for c in s)
+
+
+def unarmour(s):
+    import re
+    return re.sub(r"\{u\+([0-9a-f]{4,6})\}", lambda m: chr(int(m.group(1), 16)), s) if "{u+" in s else s
+
+
 def _field_name(k):
     """A TypedDict field name as text: the key itself when it is a str (a str subclass instance: its plain text), otherwise
     a marker naming the key's class - the projection stays total when an implementation lets a non-string key through."""
     if type(k) is str:
-        return k
+        return armour(k)
     if isinstance(type(k), type) and issubclass(type(k), str):
-        return str.__str__(k)
+        return armour(str.__str__(k))
     return "<non-str key:%s>" % type(k).__name__
 
 
@@ -252,7 +265,7 @@ def _real_value(v, table, share):
             return x
         raise ValueError("unknown self-containing value %r" % (v["n"],))
     if k == "str":
-        return resolve_class(v["a"][0]["n"], table)(v["n"]) if v["a"] else v["n"]
+        return resolve_class(v["a"][0]["n"], table)(unarmour(v["n"])) if v["a"] else unarmour(v["n"])
     if k == "atom":
         if v["n"] in _ATOM_SAMPLES:
             return _ATOM_SAMPLES[v["n"]]
@@ -342,8 +355,8 @@ def real_type(t, table=TABLE, make_td=None, reverse=False, reverse_keys=False):
         return typing.Union[tuple(sub(x) for x in sorted(t["u"], key=canon, reverse=reverse))]
     if k == "td":
         flds = sorted(t["u"], key=canon, reverse=reverse_keys)
-        req = {f["n"]: sub(f["a"][0]) for f in flds if f["k"] == "req"}
-        opt = {f["n"]: sub(f["a"][0]) for f in flds if f["k"] == "opt"}
+        req = {unarmour(f["n"]): sub(f["a"][0]) for f in flds if f["k"] == "req"}
+        opt = {unarmour(f["n"]): sub(f["a"][0]) for f in flds if f["k"] == "opt"}
         return make_td(req, opt)
     raise ValueError("cannot build type of kind %r" % (k,))
 
